@@ -4,7 +4,7 @@ from spec import paging as SP
 from ..bits import BV, eq0_bit, lit
 from ..interp import State, Unsupported
 from ..values import UNIT, Array, Closure, Enum, Opaque, Ptr, Ref, Struct
-from .common import U64, USIZE, adt, arg_obj, bv, eval_value, fn_site, inner, same, sl
+from .common import is_call_of, U64, USIZE, adt, arg_obj, bv, eval_value, fn_site, inner, same, sl
 
 LEVEL = 'proof'
 PT = 'structures::paging::page_table::'
@@ -115,6 +115,9 @@ def run(chk):
     chk.guard('index', 'index impls', index_rules)
 
     chk.guard('iter', 'iteration', lambda: iter_rules(chk, I, r1))
+    T_ = 'structures::paging::page_table::'
+    chk.guard('iter', 'PageTable::default', lambda: is_call_of(chk, I, 'iter', '<%sPageTable as core::default::Default>::default' % T_, T_ + 'PageTable::new', 'PageTable::default() is new()'))
+    chk.guard('entry', 'PageTableEntry::default', lambda: is_call_of(chk, I, 'entry', '<%sPageTableEntry as core::default::Default>::default' % T_, T_ + 'PageTableEntry::new', 'PageTableEntry::default() is new()'))
     chk.floor('obligations', len(chk.obs), 36)
 
 
